@@ -51,9 +51,18 @@ class ResWorld(World):
         v0 = mk_vehicle(env, rn, "v0", S["A"], mechs[0], soc=0.5, energy=0.10 if (low_energy and mechs[0] != "ice") else None)
         v1 = mk_vehicle(env, rn, "v1", S["N1"], mechs[1], energy=0.70 if mechs[1] == "small" else None)
         v2 = mk_vehicle(env, rn, "v2", S["X1"], mechs[2], soc=0.5, energy=0.05 if mechs[2] == "ice" else None)
+        if prices:
+            # non-round tariffs from the start (through the station's own update_prices), changed later by price rows
+            import immutables
+
+            _, s0 = s0.update_prices(immutables.Map({"DCFC": 0.2113, "LEVEL_2": 0.0917, "GAS_PUMP": 3.079}))
+            _, bs = bs.update_prices(immutables.Map({"LEVEL_2": 0.0531}))
         sim = build_sim(env, rn, vehicles=(v0, v1, v2), stations=(s0, s1, bs), bases=(b0, b1))
         self.starts = {"init": sim}
         self.request_specs = {"r0": {"origin": S["N2"], "destination": S["M2"]}}
+        from nrel.hive.model.request import RequestRateStructure
+
+        self.rate_structure = RequestRateStructure(base_price=1.37, price_per_mile=0.73, minimum_price=0.5)
         if prices:
             self.price_rows = {
                 "p1": {"station_id": "s0", "charger_id": "DCFC", "price_kwh": "0.291"},
